@@ -6908,20 +6908,26 @@ impl Machine {
     pub(crate) fn set_seed(&mut self) {
         let seed = self.deref_register(1);
 
+        // any integer is a valid seed: it is taken modulo 2^64.
+        let seed_to_u64 = |n: &Integer| -> u64 {
+            use dashu::base::RemEuclid;
+            n.rem_euclid(Integer::ONE << 64).try_into().unwrap()
+        };
+
         match Number::try_from((seed, &self.machine_st.arena.f64_tbl)) {
             Ok(Number::Fixnum(n)) => {
-                let n: u64 = Integer::from(n).try_into().unwrap();
+                let n: u64 = seed_to_u64(&Integer::from(n));
                 let rng: StdRng = SeedableRng::seed_from_u64(n);
                 self.rng = rng;
             }
             Ok(Number::Integer(n)) => {
-                let n: u64 = (&*n).try_into().unwrap();
+                let n: u64 = seed_to_u64(&n);
                 let rng: StdRng = SeedableRng::seed_from_u64(n);
                 self.rng = rng;
             }
             Ok(Number::Rational(n)) => {
                 if n.denominator() == &UBig::ONE {
-                    let n: u64 = n.numerator().try_into().unwrap();
+                    let n: u64 = seed_to_u64(n.numerator());
                     let rng: StdRng = SeedableRng::seed_from_u64(n);
                     self.rng = rng;
                 }
